@@ -209,7 +209,31 @@ func (w *fw) run(text string) string {
 	if strings.HasPrefix(text, " ") || strings.HasSuffix(text, " ") || w.r.Chance(1, 3) {
 		sp = ` xml:space="preserve"`
 	}
-	return "<" + w.el("r") + ">" + rpr + "<" + w.el("t") + sp + ">" + esc(text) + "</" + w.el("t") + "></" + w.el("r") + ">"
+	out := "<" + w.el("r") + ">" + rpr + "<" + w.el("t") + sp + ">" + esc(text) + "</" + w.el("t") + "></" + w.el("r") + ">"
+	if !w.opts.Simple && len(text) >= 2 && w.r.Chance(1, 8) {
+		// the same text carried by several w:t of one run with a tab in between (text + tab + text is one run in many producers)
+		w.feature("several-t-in-one-run")
+		cut := 1 + w.r.Intn(len(text)-1)
+		for cut < len(text) && text[cut]&0xC0 == 0x80 {
+			cut++ // not inside a UTF-8 sequence
+		}
+		if cut < len(text) {
+			out = "<" + w.el("r") + ">" + rpr + "<" + w.el("t") + ` xml:space="preserve">` + esc(text[:cut]) + "</" + w.el("t") + "><" + w.el("tab") + "/><" + w.el("t") + ` xml:space="preserve">` + esc(text[cut:]) + "</" + w.el("t") + "></" + w.el("r") + ">"
+		}
+	}
+	if !w.opts.Simple && w.r.Chance(1, 8) {
+		// a run of its own that carries only the blank between two words
+		w.feature("blank-only-run")
+		w.text.WriteString(" ")
+		w.f.RunTexts = append(w.f.RunTexts, " ")
+		if w.block != "" {
+			w.f.Wrapped = append(w.f.Wrapped, WrappedText{w.block, " "})
+		} else if w.wrap != "" {
+			w.f.Wrapped = append(w.f.Wrapped, WrappedText{w.wrap, " "})
+		}
+		out += "<" + w.el("r") + "><" + w.el("t") + ` xml:space="preserve"> </` + w.el("t") + "></" + w.el("r") + ">"
+	}
+	return out
 }
 
 func (w *fw) feature(s string) { w.f.Features = append(w.f.Features, s) }
@@ -289,7 +313,12 @@ func (w *fw) paragraph(depth int) string {
 func (w *fw) table(depth int) string {
 	var b strings.Builder
 	rows, cols := w.r.Range(1, 3), w.r.Range(1, 3)
-	b.WriteString("<" + w.el("tbl") + "><" + w.el("tblPr") + "><" + w.el("tblW") + w.at("w", "5000") + w.at("type", "dxa") + "/></" + w.el("tblPr") + ">")
+	tblStyle := ""
+	if !w.opts.Simple && w.r.Chance(1, 3) {
+		tblStyle = "<" + w.el("tblStyle") + w.at("val", []string{"TableGrid", "CorpTbl"}[w.r.Intn(2)]) + "/>"
+		w.feature("table-with-own-style")
+	}
+	b.WriteString("<" + w.el("tbl") + "><" + w.el("tblPr") + ">" + tblStyle + "<" + w.el("tblW") + w.at("w", "5000") + w.at("type", "dxa") + "/></" + w.el("tblPr") + ">")
 	if w.r.Bool() {
 		b.WriteString("<" + w.el("tblGrid") + ">")
 		for j := 0; j < cols; j++ {
@@ -356,13 +385,13 @@ func MakeForeign(r *rng.R, opts ForeignOpts) *Foreign {
 		w.feature("rId1-is-not-styles")
 	}
 	f.HeadingStyle = []string{"Heading1", "berschrift1", "Titre1"}[r.Intn(3)]
-	f.StyleIDs = []string{"Normal", f.HeadingStyle, "MyStyle", "TableGrid", "a0"}
+	f.StyleIDs = []string{"Normal", f.HeadingStyle, "MyStyle", "TableGrid", "a0", "CorpTbl"}
 	var sb strings.Builder
 	sb.WriteString(hdr + `<w:styles xmlns:w="` + nsW + `"><w:docDefaults><w:rPrDefault><w:rPr><w:sz w:val="21"/></w:rPr></w:rPrDefault></w:docDefaults>`)
 	for i, id := range f.StyleIDs {
 		typ := "paragraph"
-		if id == "TableGrid" {
-			typ = "table"
+		if id == "TableGrid" || id == "CorpTbl" {
+			typ = "table" // CorpTbl: a table style of the producer's own, unknown to any other application
 		}
 		if id == "a0" {
 			typ = "character"
@@ -504,7 +533,12 @@ func MakeForeign(r *rng.R, opts ForeignOpts) *Foreign {
 		} else if !addDefault[ext] {
 			addDefault[ext] = true
 			typ := map[string]string{"png": "image/png", "jpeg": "image/jpeg", "jpg": "image/jpeg", "gif": "image/gif", "emf": "image/x-emf"}[ext]
-			ct = append(ct, fmt.Sprintf(`<Default Extension="%s" ContentType="%s"/>`, ext, typ))
+			spelled := ext
+			if orig := name[strings.LastIndex(name, ".")+1:]; orig != ext && r.Bool() {
+				spelled = orig // the Default carries the extension as the part spells it (extensions compare case-insensitively)
+				w.feature("default-extension-in-upper-case")
+			}
+			ct = append(ct, fmt.Sprintf(`<Default Extension="%s" ContentType="%s"/>`, spelled, typ))
 		}
 		mediaIDs = append(mediaIDs, w.rel("image", "media/"+name, false))
 		w.feature("media:" + name)
